@@ -42,7 +42,7 @@ PROPS = {
     'C01': dict(level='exploration', budget={'quick': Q, 'thorough': T}, groups=A(),
                 rule='one case = (PGMIndex configuration, generated sorted key sequence, simulated machine shape, team grant, worker schedule); '
                      'non-trivial and distinct = distinct (configuration x motif signature x n) tuples whose bottom level has >= 2 segments, '
-                     'plus one per distinct trace hash of a run in which a team of >= 2 simulated workers built the index',
+                     'plus one per distinct trace hash of a run in which a team of >= 2 simulated workers built the index. Scale slots (positions in the run sequence): millions of keys from recipes (long single segment, skewed, very many segments, > 2^16 points in convex position); some indexes are built from std::deque iterators',
                 assumptions=COMMON_ASSUME + ['floating keys restricted to the exact dyadic tier (DESIGN.md 4.1)']),
     'C02': dict(level='exploration', budget={'quick': Q, 'thorough': T}, groups=A(),
                 rule='as C01, queries are the absent-key families (below first, gap midpoints, after duplicate runs, around chunk seams, above last, max-1, 2^k-far) plus present keys',
@@ -53,7 +53,7 @@ PROPS = {
     'C03': dict(level='exploration', budget={'quick': Q, 'thorough': T}, groups=A((9, 4, 3)),
                 rule='one case = (key type, run-time epsilon 0..1024, sorted key sequence, sequential or chunked builder under a simulated machine/team/schedule); '
                      'every point handed to the builder is recorded through hook H1 and judged against the reported line; '
-                     'non-trivial and distinct = distinct (key type x motif signature x epsilon x n) with >= 2 segments, plus one per distinct trace of a run built by a team of >= 2 workers',
+                     'scale slots: 0.1-0.4 M 64-bit keys in strictly convex/concave position with kinks (hulls beyond the 2^16 entries the builder reserves), epsilon 64..1024; non-trivial and distinct = distinct (key type x motif signature x epsilon x n) with >= 2 segments, plus one per distinct trace of a run built by a team of >= 2 workers',
                 assumptions=COMMON_ASSUME + ['floating keys restricted to the exact dyadic tier; long double evaluation with tolerance 1e-9']),
     'C04': dict(level='exploration', budget={'quick': Q, 'thorough': T}, groups=A((9, 4, 3)),
                 rule='as C03, integer keys only; the cut points of every chunk are compared with an exact 128-bit rational feasibility oracle (hull-based, cross-checked against the O(m^2) definition on chunks <= 1500 points)',
@@ -64,7 +64,7 @@ PROPS = {
                      'plus one per distinct trace of a team-built index. Only E1 is simulator-owned here (weak use of the family, DESIGN.md 2); for n < 2^15 this is seeded generation against std::lower_bound.',
                 assumptions=COMMON_ASSUME + ['E1 (construction team) is the only simulator-owned dimension; no fault kind applies']),
     'C09': dict(level='exploration', budget={'quick': Q, 'thorough': T}, groups=A((8, 6, 2)),
-                rule='as C08 for BucketingPGMIndex, plus: empty ranges at 0 / n outside [first,last], and the bucket slice selects the rightmost segment starting at or before the key (read through a subclass)',
+                rule='as C08 for BucketingPGMIndex, plus: empty ranges at 0 / n outside [first,last], and the bucket slice selects the rightmost segment starting at or before the key (read through a subclass); a quarter of the 64-bit runs with non-power-of-two tables rescale the key span so that the table step has one to three set bits',
                 assumptions=COMMON_ASSUME + ['E1 (construction team) is the only simulator-owned dimension; no fault kind applies',
                                              'fixed TopLevelBitSize too small for the segment count throws by design and is skipped as out of domain']),
     'C10': dict(level='exploration', budget={'quick': Q, 'thorough': T}, groups=A((8, 6, 2)),
@@ -73,7 +73,7 @@ PROPS = {
     'C18': dict(level='exploration', budget={'quick': Q, 'thorough': T}, groups=A((5, 3, 1)) + B((4, 2, 1)),
                 rule='static part: one case = (C type int32/int64/uint32/uint64, run-time epsilon 1..4096, sorted C array, simulated machine/team/schedule); pgm_index_<t>_create/search judged by the C01+C02 oracles with that epsilon. '
                      'non-trivial and distinct = distinct (type x epsilon x motif signature x n) with >= 2 segments and both present and absent queries, plus one per distinct trace of a team-built index. '
-                     'dynamic part: one case = a history of create/create_empty/insert_or_assign/erase/find/begin/lower_bound/iterator_next/iterator_destroy/size calls on dynamic_pgm_index_<int32|int64|uint32> judged against std::map, iterators held across updates and destroyed later; non-trivial = distinct trace hashes of histories with >= 2 updates',
+                     'dynamic part: one case = a history of create/create_empty/insert_or_assign/erase/find/begin/lower_bound/iterator_next/iterator_destroy/size calls on dynamic_pgm_index_<int32|int64|uint32> judged against std::map, iterators held across updates and destroyed later, the handle destroyed and re-created inside a history, a second (bystander) container alive all along and compared at the end; static part also: destroy + create a different index at the same address (or keep both alive) and repeat the last query first; non-trivial = distinct trace hashes of histories with >= 2 updates',
                 assumptions=COMMON_ASSUME + ['dynamic_pgm_index_uint64 is declared in cpgm.h but not defined in cpgm.cpp, so it cannot be linked and is not exercised', 'c-interface/cpgm.cpp is compiled from the working tree into the engine']),
     'C05': dict(level='exploration', budget={'quick': Q, 'thorough': T}, groups=B(),
                 rule='one case = (DynamicPGMIndex<K,V,PGMType> configuration, base, buffer_level, index_level, bulk-load, history of 1..400 (quick) / ..5000 (thorough) operations over a small key domain with unique values, invalid operations injected at random points, simulated machine/team/schedule for indexed levels >= 2^15 entries)' + '; after every operation find/count/lower_bound are compared with std::map, with sweeps over the key domain; non-trivial and distinct = distinct trace hashes of histories with >= 2 updates and (>= 2 non-empty levels or an erase-then-reinsert)',
@@ -82,19 +82,19 @@ PROPS = {
                 rule='one case = (DynamicPGMIndex<K,V,PGMType> configuration, base, buffer_level, index_level, bulk-load, history of 1..400 (quick) / ..5000 (thorough) operations over a small key domain with unique values, invalid operations injected at random points, simulated machine/team/schedule for indexed levels >= 2^15 entries)' + '; traversal from begin() and from lower_bound results (bounded by the number of live keys), range(lo,hi) (exact length and content), size() and empty() are compared with std::map; non-trivial as C05',
                 assumptions=COMMON_ASSUME),
     'C15': dict(level='exploration', budget={'quick': Q, 'thorough': T}, groups=B(),
-                rule='one case = (DynamicPGMIndex<K,V,PGMType> configuration, base, buffer_level, index_level, bulk-load, history of 1..400 (quick) / ..5000 (thorough) operations over a small key domain with unique values, invalid operations injected at random points, simulated machine/team/schedule for indexed levels >= 2^15 entries)' + '; after every insert_or_assign/erase the private layout is read through hook H3 and checked: levels strictly sorted, capacities from an independent formula, no data beyond used levels, every non-empty indexed level owns an index bit-identical to a freshly built one (property-level equivalent when chunked), emptied levels own no index; non-trivial as C05',
+                rule='one case = (DynamicPGMIndex<K,V,PGMType> configuration, base, buffer_level, index_level, bulk-load, history of 1..400 (quick) / ..5000 (thorough) operations over a small key domain with unique values, invalid operations injected at random points, simulated machine/team/schedule for indexed levels >= 2^15 entries)' + '; after every insert_or_assign/erase the private layout is read through hook H3 and checked: levels strictly sorted, capacities from an independent formula, no data beyond used levels, every non-empty indexed level owns an index bit-identical to a freshly built one (property-level equivalent when chunked), emptied levels own no index; scale slots: base 2 walked through 2^18-1 resident entries (> 16 non-empty levels), and a level of capacity 2^24 bulk-loaded to capacity - need - delta (delta -2..+1, need from a sizes-only reference model of the cascade rule) with the sizes judged after every one of 0.26-1.1 M inserts; non-trivial as C05',
                 assumptions=COMMON_ASSUME + ['hook H3 (friend accessor) only reads']),
     'C19': dict(level='exploration', budget={'quick': Q, 'thorough': T},
                 groups=[{'engine': 'buildsim', 'flavour': 'asan', 'weight': 6}, {'engine': 'buildsim', 'flavour': 'plain', 'weight': 4},
                         {'engine': 'histsim', 'flavour': 'asan', 'weight': 4}, {'engine': 'histsim', 'flavour': 'plain', 'weight': 2}],
                 rule='one case = (class and configuration, input, a lifetime history: derive Y from X by copy-construct / copy-assign / move-construct / move-assign (those the type provides), then in seeded order destroy X (heap object, storage really released), churn the allocator, update X (dynamic), query Y); '
-                     'oracle: every answer of Y equals the answer X gave before; ASan: no use-after-free; plain flavour: glibc M_PERTURB overwrites every freed block. non-trivial and distinct = distinct (trace hash x step order)',
+                     'oracle: every answer of Y equals the answer X gave before; ASan: no use-after-free; plain flavour: glibc M_PERTURB overwrites every freed block; also assignment onto an already built object, and scale slots of 0.5-1.5 M keys (> 33,000 segments, where the succinct structures change representation). non-trivial and distinct = distinct (trace hash x step order)',
                 assumptions=COMMON_ASSUME + ['plain flavour relies on mallopt(M_PERTURB) to poison freed storage, ASan flavour on the quarantine']),
     'C20': dict(level='fault_enumeration', budget={'quick': Q, 'thorough': T},
                 groups=[{'engine': 'buildsim', 'flavour': 'plain', 'weight': 5}, {'engine': 'buildsim', 'flavour': 'asan', 'weight': 3},
                         {'engine': 'histsim', 'flavour': 'plain', 'weight': 5}, {'engine': 'histsim', 'flavour': 'asan', 'weight': 3}],
                 rule='the invalid argument is the injected fault and its position is what is enumerated. static classes, C wrapper: valid data followed by 1..3 copies of the reserved value (the only place a sorted array can hold it) -> std::invalid_argument / NULL; '
-                     'builder: non-increasing x after 1,2,3.. points, negative epsilon; multidimensional: one coordinate of one point at width >= FieldBits; DynamicPGMIndex: an out-of-order pair at EVERY position of bulk-loads up to 64 pairs (exhaustive per case) and sampled positions of larger ones, '
+                     'builder: non-increasing x after 1,2,3.. points, negative epsilon; multidimensional: one coordinate of one point at width >= FieldBits, or a negative coordinate in tuples of int8/16/32/64 elements; DynamicPGMIndex: an out-of-order pair at EVERY position of bulk-loads up to 64 pairs (exhaustive per case) and sampled positions of larger ones, '
                      'every base 0..255, the reserved mapped value and lo > hi at random points of histories, with the container state (through hook H3) compared before/after a rejected insert. non-trivial and distinct = distinct (class x input size x fault position) cases',
                 assumptions=COMMON_ASSUME + ['exhaustive only per small case (all positions of a bulk-load <= 64 pairs, all 256 bases); the set of cases itself is sampled']),
     'C17': dict(level='exploration', budget={'quick': Q, 'thorough': T},
@@ -103,19 +103,19 @@ PROPS = {
                         {'engine': 'filesim', 'flavour': 'asan', 'weight': 1, 'profile': 'boundary'}, {'engine': 'filesim', 'flavour': 'asan', 'weight': 1},
                         {'engine': 'readsim', 'flavour': 'asan', 'weight': 1, 'profile': 'boundary'}, {'engine': 'readsim', 'flavour': 'asan', 'weight': 1}],
                 rule='AddressSanitizer is the oracle (a report ends the worker with exit code 77 and is gated, minimised and replayed like any other violation). boundary profile: n in 1..4 (and up to 2*Epsilon+4), empty dynamic containers, queries at lowest(), below first, above last, max-1, iterators driven to end(), boxes reaching the largest encodable code, absent points beyond all codes; '
-                     'plus a slice of every engine\'s ordinary corpus (all classes, incl. MultidimensionalPGMIndex and the C wrapper). non-trivial and distinct = distinct (configuration x input signature) tuples executed under ASan',
+                     'plus a slice of every engine\'s ordinary corpus (all classes, incl. MultidimensionalPGMIndex and the C wrapper) and the cheapest scale recipe (> 2^16 hull points). non-trivial and distinct = distinct (configuration x input signature) tuples executed under ASan',
                 assumptions=COMMON_ASSUME + ['the claim is bounded to the inputs the engines generate; reads inside an allocation but outside the logical structure are not visible to ASan']),
     'C11': dict(level='exploration', budget={'quick': Q, 'thorough': T}, groups=C(),
-                rule='one case = (MappedPGMIndex configuration, sorted integer sequence with duplicate runs sized against the search range and the gallop of upper_bound, a history of container operations: create-from-range(F1), write raw file + create-from-raw(F2), reopen(F1/F2), reopen-again, query, destroy in seeded order with several containers alive on one file; I/O faults attached to operations by call index: eintr and short_io on every read/write/writev, fail-stop open_fail/mmap_fail; half of the runs fault-free; E1 for large files)' + '; oracle: lower_bound/upper_bound/count/contains/begin/end/size equal the std algorithms on the original vector for present and absent keys (below front and above back included); under fail-stop faults a constructor may throw std::runtime_error, nothing else. '
+                rule='one case = (MappedPGMIndex configuration, sorted integer sequence with duplicate runs sized against the search range and the gallop of upper_bound, a history of container operations: create-from-range(F1), write raw file + create-from-raw(F2), reopen(F1/F2), reopen-again, query, destroy in seeded order with several containers alive on one file; I/O faults attached to operations by call index: eintr and short_io on every read/write/writev, fail-stop open_fail/mmap_fail; half of the runs fault-free; E1 for large files; the range comes from a std::vector or a std::deque; a quarter of the creations find a stale file of another size at the output path)' + '; oracle: lower_bound/upper_bound/count/contains/begin/end/size equal the std algorithms on the original vector for present and absent keys (below front and above back included); under fail-stop faults a constructor may throw std::runtime_error, nothing else. '
                      'non-trivial and distinct = distinct trace hashes of histories in which >= 1 fault fired inside a create or load (fault-free histories are counted separately); about one small history in eight is expanded into the exhaustive single-fault sweep (every I/O call index x every gating fault kind)',
                 assumptions=COMMON_ASSUME + ['write errors, crashes, torn or lost writes are not injected: no property quantifies over them and the code has no handling (DESIGN.md 3.4)']),
     'C12': dict(level='exploration', budget={'quick': Q, 'thorough': T}, groups=C(),
-                rule='one case = (MappedPGMIndex configuration, sorted integer sequence with duplicate runs sized against the search range and the gallop of upper_bound, a history of container operations: create-from-range(F1), write raw file + create-from-raw(F2), reopen(F1/F2), reopen-again, query, destroy in seeded order with several containers alive on one file; I/O faults attached to operations by call index: eintr and short_io on every read/write/writev, fail-stop open_fail/mmap_fail; half of the runs fault-free; E1 for large files)' + '; oracle: F1 and F2 byte-identical; header fields (n, first_key, levels_offsets, segments) of every instance equal those of an index built over the same sequence; a reopen leaves the file byte-identical and performs no write-class call on it (shim monitor). non-trivial as C11; includes the exhaustive single-fault sweep on small creations',
+                rule='one case = (MappedPGMIndex configuration, sorted integer sequence with duplicate runs sized against the search range and the gallop of upper_bound, a history of container operations: create-from-range(F1), write raw file + create-from-raw(F2), reopen(F1/F2), reopen-again, query, destroy in seeded order with several containers alive on one file; I/O faults attached to operations by call index: eintr and short_io on every read/write/writev, fail-stop open_fail/mmap_fail; half of the runs fault-free; E1 for large files; the range comes from a std::vector or a std::deque; a quarter of the creations find a stale file of another size at the output path)' + '; oracle: F1 and F2 byte-identical; header fields (n, first_key, levels_offsets, segments) of every instance equal those of an index built over the same sequence; a reopen leaves the file byte-identical and performs no write-class call on it (shim monitor). non-trivial as C11; includes the exhaustive single-fault sweep on small creations',
                 assumptions=COMMON_ASSUME + ['write errors, crashes, torn or lost writes are not injected: no property quantifies over them and the code has no handling (DESIGN.md 3.4)']),
     'C16': dict(level='exploration', budget={'quick': Q, 'thorough': T},
                 groups=[{'engine': 'readsim', 'flavour': 'tsan', 'weight': 9}, {'engine': 'readsim', 'flavour': 'plain', 'weight': 4}, {'engine': 'readsim', 'flavour': 'asan', 'weight': 3}],
                 rule='one case = (class and configuration of the shared object: PGMIndex, Compressed, Bucketing, EliasFano, Mapped (reopened file), Multidimensional, Dynamic (updated single-threaded beforehand); 2..16 reader tasks with seeded query scripts; preemption probability; schedule seed). '
                      'readers are real threads of which exactly one runs, handed over by the seeded baton scheduler at operation, iterator-step and in-query (hook H2) yield points; the scheduler is invisible to ThreadSanitizer, so two conflicting accesses by different readers are reported whenever both occur in the run. '
-                     'oracles: zero TSan reports; every call returns what it returned in a solo pass before and in a second solo pass after. non-trivial and distinct = distinct schedules (decision hashes) in which >= 2 readers were each preempted mid-script',
+                     'oracles: zero TSan reports; every call returns what it returns when run alone (warm runs: a solo pass on the shared object before the readers; cold runs, 60 %: a solo pass on an identically constructed twin, so that the concurrent readers are the first callers of any query operation on the shared object) and a second solo pass afterwards agrees. non-trivial and distinct = distinct schedules (decision hashes) in which >= 2 readers were each preempted mid-script',
                 assumptions=COMMON_ASSUME + ['no instruction-level interleaving: races are found by happens-before analysis over serial executions, their effects (e.g. a lost update) are not explored']),
 }
